@@ -3,6 +3,5 @@ CONSTANTS
   PartyShapes <- ShapesThorough
   MaxGates = 3
   MaxOutputs = 3
-INVARIANT DesignCorrect
 INVARIANT Emit
 CHECK_DEADLOCK FALSE
